@@ -155,11 +155,22 @@ Definition check_step (cfg : config) (torc : cluster -> nat -> tanswer) (sorc : 
   | _, _ => (s, all_bad)
   end.
 
-Fixpoint check (cfg : config) torc sorc (s : ck) (tr : list (op * out)) : clauses :=
-  match tr with
-  | [] => all_ok
-  | (o, x) :: rest => let (s', cl) := check_step cfg torc sorc s o x in and_cl cl (check cfg torc sorc s' rest)
+(* overlapping requests are judged exactly as sequential ones: the request whose review was received
+   first, then the one that ran while it was in flight *)
+Definition check_stepx (cfg : config) torc sorc (s : ck) (o : xop) (x : xout) : ck * clauses :=
+  match o, x with
+  | One a, R1 xa => check_step cfg torc sorc s a xa
+  | Ovl a b, R2 xa xb =>
+      let (s1, c1) := check_step cfg torc sorc s a xa in
+      let (s2, c2) := check_step cfg torc sorc s1 b xb in (s2, and_cl c1 c2)
+  | _, _ => (s, all_bad)
   end.
 
-Definition spec_ok (cfg : config) torc sorc (tr : list (op * out)) : clauses :=
+Fixpoint check (cfg : config) torc sorc (s : ck) (tr : list (xop * xout)) : clauses :=
+  match tr with
+  | [] => all_ok
+  | (o, x) :: rest => let (s', cl) := check_stepx cfg torc sorc s o x in and_cl cl (check cfg torc sorc s' rest)
+  end.
+
+Definition spec_ok (cfg : config) torc sorc (tr : list (xop * xout)) : clauses :=
   check cfg torc sorc (ck_init cfg) tr.
